@@ -11,6 +11,7 @@ from . import common as C
 DISPATCH = {
     "C06": ("harness.herd", "run"),
     "C07": ("harness.herd", "run"),
+    "C10": ("harness.units", "run"),
     "C11": ("harness.foodalg", "run"),
 }
 
